@@ -27,6 +27,9 @@ pub enum Dec {
     Bcj { arch: u8, start: u32 },
     Delta { dist: u32 },
     Bcj2 { size: u64 },
+    /// multi-threaded readers on real threads
+    LzipMt { workers: u32 },
+    Lzma2Mt { dict: u32, workers: u32 },
 }
 
 #[derive(Clone, Debug, Serialize, Deserialize)]
@@ -70,7 +73,11 @@ fn dec_strategy(family: u32) -> BoxedStrategy<Dec> {
             2 => 4096u32..(8 << 20),
         ]
     };
-    match family % 8 {
+    match family % 10 {
+        8 => (1u32..5).prop_map(|workers| Dec::LzipMt { workers }).boxed(),
+        // every work unit allocates its own dictionary: keep it small so that inputs with 10^5
+        // units stay cheap (the cost is linear in the number of units either way)
+        9 => (prop_oneof![Just(4096u32), 4096u32..(1 << 20)], 1u32..5).prop_map(|(dict, workers)| Dec::Lzma2Mt { dict, workers }).boxed(),
         0 => prop_oneof![3 => Just(u32::MAX), 1 => 0u32..200_000].prop_map(|limit_kb| Dec::LzmaHeader { limit_kb }).boxed(),
         1 => (
             any::<u8>(),
@@ -104,7 +111,7 @@ fn op_strategy() -> BoxedStrategy<MutOp> {
         1 => (any::<u32>(), 1u16..64).prop_map(|(pos, len)| MutOp::Delete { pos, len }),
         6 => (0u8..7, 0u16..64, prop_oneof![Just(0u8), Just(0xFFu8), Just(0x80u8), Just(0x7Fu8), Just(0x28u8), Just(0x29u8), any::<u8>()])
             .prop_map(|(region, off, val)| MutOp::InRegion { region, off, val }),
-        1 => prop_oneof![1u32..40, 1000u32..3000].prop_map(|n| MutOp::AppendEmpty { n }),
+        1 => prop_oneof![6 => 1u32..40, 3 => 1000u32..3000, 1 => 150_000u32..250_000].prop_map(|n| MutOp::AppendEmpty { n }),
     ]
     .boxed()
 }
@@ -143,7 +150,7 @@ fn declared_dict(dec: &Dec, input: &[u8]) -> u64 {
                 0
             }
         }
-        Dec::LzmaRaw { dict, .. } | Dec::Lzma2 { dict } => *dict as u64,
+        Dec::LzmaRaw { dict, .. } | Dec::Lzma2 { dict } | Dec::Lzma2Mt { dict, .. } => *dict as u64,
         Dec::Xz { .. } => {
             let mut m = 0u64;
             for w in input.windows(3) {
@@ -153,7 +160,7 @@ fn declared_dict(dec: &Dec, input: &[u8]) -> u64 {
             }
             m
         }
-        Dec::Lzip => {
+        Dec::Lzip | Dec::LzipMt { .. } => {
             let mut m = 0u64;
             for w in input.windows(6) {
                 if &w[0..4] == b"LZIP" {
@@ -169,7 +176,7 @@ fn declared_dict(dec: &Dec, input: &[u8]) -> u64 {
 fn build_base(dec: &Dec, data: &[u8]) -> Result<Vec<u8>, Failure> {
     let opts = Opts {
         dict_size: match dec {
-            Dec::LzmaRaw { dict, .. } | Dec::Lzma2 { dict } => (*dict).clamp(4096, 1 << 20),
+            Dec::LzmaRaw { dict, .. } | Dec::Lzma2 { dict } | Dec::Lzma2Mt { dict, .. } => (*dict).clamp(4096, 1 << 20),
             _ => 4096,
         },
         lc: 3,
@@ -194,7 +201,7 @@ fn build_base(dec: &Dec, data: &[u8]) -> Result<Vec<u8>, Failure> {
             }
             encode_lzma(data, &o, None, &Framing::RawEos, &Plan::All)
         }
-        Dec::Lzma2 { .. } => encode_lzma(data, &opts, None, &Framing::Lzma2 { chunk: Some(4096) }, &Plan::Fixed(3000)),
+        Dec::Lzma2 { .. } | Dec::Lzma2Mt { .. } => encode_lzma(data, &opts, None, &Framing::Lzma2 { chunk: Some(4096) }, &Plan::Fixed(3000)),
         Dec::Xz { .. } => {
             let cfg = XzCfg {
                 check: 1 + (data.len() % 3) as u8,
@@ -205,7 +212,7 @@ fn build_base(dec: &Dec, data: &[u8]) -> Result<Vec<u8>, Failure> {
             let plan = if cfg.filters.iter().any(|f| f.is_bcj()) { Plan::All } else { Plan::Fixed(3000) };
             encode_xz(data, &cfg, &plan)
         }
-        Dec::Lzip => encode_lzip(
+        Dec::Lzip | Dec::LzipMt { .. } => encode_lzip(
             data,
             &LzipCfg {
                 opts,
@@ -253,7 +260,7 @@ fn fix_xz_crcs(orig: &XzWalk, m: &mut [u8]) {
 fn apply_ops(dec: &Dec, base: &[u8], ops: &[MutOp], fix_crc: bool) -> Vec<u8> {
     let mut m = base.to_vec();
     let xzw = if matches!(dec, Dec::Xz { .. }) { Some(walk_xz(base)) } else { None };
-    let lzw = if matches!(dec, Dec::Lzip) { Some(walk_lzip(base)) } else { None };
+    let lzw = if matches!(dec, Dec::Lzip | Dec::LzipMt { .. }) { Some(walk_lzip(base)) } else { None };
     let mut same_layout = true;
     for op in ops {
         let n = m.len();
@@ -322,8 +329,10 @@ fn apply_ops(dec: &Dec, base: &[u8], ops: &[MutOp], fix_crc: bool) -> Vec<u8> {
                 }
             }
             MutOp::AppendEmpty { n } => {
+                // the deep-recursion sizes are reserved for the MT readers (36 bytes per member)
+                let n = if n > 3000 && !matches!(dec, Dec::LzipMt { .. } | Dec::Lzma2Mt { .. }) { n % 3000 } else { n };
                 let unit: Vec<u8> = match dec {
-                    Dec::Lzip => {
+                    Dec::Lzip | Dec::LzipMt { .. } => {
                         // an empty member: header + end marker stream + trailer (36 bytes)
                         let cfg = LzipCfg {
                             opts: Opts {
@@ -340,14 +349,14 @@ fn apply_ops(dec: &Dec, base: &[u8], ops: &[MutOp], fix_crc: bool) -> Vec<u8> {
                         };
                         encode_lzip(&[], &cfg, &Plan::All).unwrap_or_default()
                     }
-                    Dec::Lzma2 { .. } => {
+                    Dec::Lzma2 { .. } | Dec::Lzma2Mt { .. } => {
                         // an empty-ish LZMA2 unit: dictionary reset + 1 byte
                         vec![0x01, 0x00, 0x00, 0x41]
                     }
                     _ => vec![],
                 };
                 if !unit.is_empty() {
-                    if matches!(dec, Dec::Lzma2 { .. }) && m.last() == Some(&0) {
+                    if matches!(dec, Dec::Lzma2 { .. } | Dec::Lzma2Mt { .. }) && m.last() == Some(&0) {
                         m.pop();
                         for _ in 0..n {
                             m.extend_from_slice(&unit);
@@ -421,6 +430,24 @@ fn drive(dec: &Dec, input: Vec<u8>, sizes: &[u32], cap: usize) -> io::Result<Vec
             let mut r = DeltaReader::new(input.as_slice(), *dist as usize);
             read_all(&mut r, sizes, cap)
         }
+        #[cfg(not(lzma_rust2_verif_shuttle))]
+        Dec::LzipMt { workers } => {
+            let mut r = lzma_rust2::LZIPReaderMT::new(std::io::Cursor::new(input), *workers)?;
+            let res = read_all(&mut r, sizes, cap);
+            let mut b = [0u8; 16];
+            let _ = r.read(&mut b);
+            res
+        }
+        #[cfg(not(lzma_rust2_verif_shuttle))]
+        Dec::Lzma2Mt { dict, workers } => {
+            let mut r = lzma_rust2::LZMA2ReaderMT::new(std::io::Cursor::new(input), *dict, None, *workers);
+            let res = read_all(&mut r, sizes, cap);
+            let mut b = [0u8; 16];
+            let _ = r.read(&mut b);
+            res
+        }
+        #[cfg(lzma_rust2_verif_shuttle)]
+        Dec::LzipMt { .. } | Dec::Lzma2Mt { .. } => Err(io::Error::other("MT decoders need the real-thread build")),
         Dec::Bcj2 { size } => {
             // split the blob into four streams (tolerating damage of the length prefixes)
             let mut streams: Vec<std::io::Cursor<Vec<u8>>> = Vec::new();
@@ -446,7 +473,7 @@ impl Property for C06 {
     const ID: &'static str = "C06";
 
     fn families(_tier: Tier) -> u32 {
-        8
+        10
     }
 
     fn strategy(_tier: Tier, family: u32) -> BoxedStrategy<Case> {
@@ -456,7 +483,7 @@ impl Property for C06 {
     }
 
     fn budget(tier: Tier) -> u64 {
-        tier.pick(400_000, 10_000_000)
+        tier.pick(150_000, 5_000_000)
     }
 
     fn rule() -> &'static str {
@@ -464,12 +491,12 @@ impl Property for C06 {
     }
 
     fn floors(_tier: Tier) -> Vec<(&'static str, f64)> {
-        vec![("deep", 35.0), ("xz", 15.0), ("lzip", 8.0), ("lzma2", 8.0), ("lzma1", 15.0), ("bcj2", 8.0), ("filters", 8.0), ("crc_fixed", 10.0)]
+        vec![("deep", 35.0), ("xz", 12.0), ("lzip", 6.0), ("lzma2", 6.0), ("lzma1", 12.0), ("bcj2", 6.0), ("filters", 6.0), ("crc_fixed", 8.0), ("mt_reader", 10.0)]
     }
 
     fn assumptions() -> Vec<&'static str> {
         vec![
-            "MT readers on corrupt input are exercised in C09 under the deterministic scheduler; here only the single-threaded decoders run",
+            "the MT readers run here on real threads (schedules are explored in C09); a blocked read shows up as the shard watchdog + isolation re-run",
             "dictionary sizes handed to constructors are those a container can hand over (LZMA2 property values and [4096, 8 MiB]); 4 GiB dictionaries are only reached through XZ header bytes",
         ]
     }
@@ -482,9 +509,9 @@ impl Property for C06 {
                 if *magic {
                     let mg: &[u8] = match &case.dec {
                         Dec::Xz { .. } => b"\xFD7zXZ\0\0\x01\x69\x22\xde\x36",
-                        Dec::Lzip => b"LZIP\x01\x0c",
+                        Dec::Lzip | Dec::LzipMt { .. } => b"LZIP\x01\x0c",
                         Dec::LzmaHeader { .. } => b"\x5d\x00\x10\x00\x00\xff\xff\xff\xff\xff\xff\xff\xff\x00",
-                        Dec::Lzma2 { .. } => b"\xe0\x00\x40\x00\x30\x5d\x00",
+                        Dec::Lzma2 { .. } | Dec::Lzma2Mt { .. } => b"\xe0\x00\x40\x00\x30\x5d\x00",
                         Dec::LzmaRaw { .. } => b"\x00",
                         _ => b"",
                     };
@@ -506,6 +533,7 @@ impl Property for C06 {
             Dec::Lzma2 { .. } => "lzma2",
             Dec::Xz { .. } => "xz",
             Dec::Lzip => "lzip",
+            Dec::LzipMt { .. } | Dec::Lzma2Mt { .. } => "mt_reader",
             Dec::Bcj { .. } | Dec::Delta { .. } => "filters",
             Dec::Bcj2 { .. } => "bcj2",
         };
@@ -513,10 +541,10 @@ impl Property for C06 {
         // "deep" = passes the magic / first header stage
         let deep = match &case.dec {
             Dec::Xz { .. } => input.len() >= 12 && input.starts_with(b"\xFD7zXZ\0") && crc32(&input[6..8]) == u32::from_le_bytes([input[8], input[9], input[10], input[11]]),
-            Dec::Lzip => input.len() >= 6 && input.starts_with(b"LZIP\x01") && lzip_dict_size(input[5]).is_some(),
+            Dec::Lzip | Dec::LzipMt { .. } => input.len() >= 6 && input.starts_with(b"LZIP\x01") && lzip_dict_size(input[5]).is_some(),
             Dec::LzmaHeader { .. } => input.len() > 13 && input[0] <= 224 && input[13] == 0,
             Dec::LzmaRaw { props, .. } => *props <= 224 && input.first() == Some(&0),
-            Dec::Lzma2 { .. } => matches!(input.first(), Some(&c) if c == 1 || c >= 0xE0),
+            Dec::Lzma2 { .. } | Dec::Lzma2Mt { .. } => matches!(input.first(), Some(&c) if c == 1 || c >= 0xE0),
             Dec::Bcj2 { .. } => input.len() > 24,
             _ => !input.is_empty(),
         };
@@ -524,7 +552,9 @@ impl Property for C06 {
         obs.nontrivial = deep;
 
         let allowed = declared_dict(&case.dec, &input) + (8 << 20) + 4 * input.len() as u64
-            + if matches!(case.dec, Dec::Bcj2 { .. }) { 2 << 20 } else { 0 };
+            + if matches!(case.dec, Dec::Bcj2 { .. }) { 2 << 20 } else { 0 }
+            // the MT readers buffer whole decoded units by design (5 workers x (dictionary + unit) + queue of 4 units)
+            + if matches!(case.dec, Dec::LzipMt { .. } | Dec::Lzma2Mt { .. }) { 8 * declared_dict(&case.dec, &input) + (64 << 20) } else { 0 };
         let n = input.len();
         let t0 = Instant::now();
         crate::alloc::reset_peak();
